@@ -90,26 +90,28 @@ CMP_OPS = ["==", "!=", "<", ">", "<=", ">=", "<>"]
 # --------------------------------------------------------------------------- permitted protocol names
 #
 # O2 flags every name read through `__getattribute__` on an instrumented instance that is not listed here.
-# OBSERVED was determined empirically: ~90 benign templates (every built-in filter family, for/tablerow,
-# include/render/with/call, translate, comparisons, `contains`, `default`, `json`, `date`; sync + async,
-# auto-escape on/off) over all four shapes logged exactly these names (CPython 3.12; special-method lookups done
-# by the interpreter itself - len(), iter(), str(), obj[key], ==, hash() - go through the type and never
-# reach `__getattribute__`):
-#   __class__              isinstance() fallback for ABC / tuple-of-type checks
-#   __liquid__             hasattr + call in get_item / is_truthy / _eq / _lt / default
-#   __html__               hasattr in to_liquid_string / markupsafe.escape (auto-escape)
-#   __getitem_async__      hasattr (+ call) in get_item_async
-#   __getitem__            hasattr() in the filters' `_getitem` helpers after a TypeError
-#   force_liquid_default   hasattr (+ read) in the `default` filter
-#   items                  Mapping drops only: `.first`, `for`/`tablerow` over a mapping, Mapping.__eq__
+# OBSERVED was determined empirically: (a) ~90 hand-written benign templates (every built-in filter family,
+# for/tablerow, include/render/with/call, translate, comparisons, `contains`, `default`, `json`, `date`; sync +
+# async, auto-escape on/off) over all four shapes and (b) 2000 generated cases of this module on the unchanged
+# tree logged exactly these names (CPython 3.12; special-method lookups done by the interpreter itself - len(),
+# iter(), str(), obj[key], ==, hash(), int() - go through the type and never reach `__getattribute__`):
+#   __class__              isinstance() fallback for ABC / tuple-of-type checks           (all shapes)
+#   __liquid__             hasattr + call in get_item / is_truthy / _eq / _lt / default   (all shapes)
+#   __html__               hasattr in to_liquid_string / markupsafe.escape (auto-escape)  (all shapes)
+#   __getitem_async__      hasattr (+ call) in get_item_async                             (all shapes)
+#   __getitem__            hasattr() in the filters' `_getitem` helpers after a TypeError (plain/liquid/sequence)
+#   force_liquid_default   hasattr (+ read) in the `default` filter                       (all shapes)
+#   items                  `.first`, `for`/`tablerow` over a mapping, Mapping.__eq__      (Mapping drops only)
 OBSERVED = frozenset(["__class__", "__liquid__", "__html__", "__getitem_async__", "__getitem__",
                       "force_liquid_default"])
 # Not observed, but part of the documented protocol (item access, length, iteration, string/number
-# conversion); permitted so that another interpreter version doing an explicit lookup is not a false alarm.
-# What they return is public by definition and O1 still applies to everything that flows out.
+# conversion, the Mapping API next to `items`); permitted so that another interpreter version doing an explicit
+# lookup is not a false alarm.  What they return is public by definition and O1 still applies to everything
+# that flows out.  Deliberately NOT permitted: __dict__, __slots__, __init__, __module__, __doc__, __globals__,
+# __subclasses__, __mro__, ... - nothing on the unchanged tree reads them.
 DOCUMENTED = frozenset(["__len__", "__iter__", "__contains__", "__str__", "__repr__", "__eq__", "__ne__",
                         "__hash__", "__bool__", "__int__", "__index__", "__float__", "__reversed__", "__lt__"])
-MAPPING_API = frozenset(["items", "keys", "values", "get"])
+MAPPING_API = frozenset(["items", "keys", "values", "get"])  # `items` observed, the other three are not
 PERMITTED = {
     "plain": OBSERVED | DOCUMENTED,
     "liquid": OBSERVED | DOCUMENTED,
@@ -333,14 +335,14 @@ class Gen:
 
     def seg(self, name: str | None = None) -> str:
         """One path segment selecting `name` by dot, quoted bracket or a key supplied as data."""
-        name = self.name() if name is None else name
         r = self.roll()
+        if r >= 75:  # the key is data: k, k2, ks, d.k hold names; q.__liquid__() returns one
+            return self.pick(["[k]", "[k2]", "[ks[0]]", "[ks.last]", "[d.k]", "[q]", "[ks[1]]"])
+        name = self.name() if name is None else name
         if r < 45:
             return "." + name
-        if r < 75:
-            q = "'" if r < 60 else '"'
-            return f"[{q}{name}{q}]"
-        return self.pick(["[k]", "[k2]", "[ks[0]]", "[ks.last]", "[d.k]", "[q]", "[ks[1]]"])
+        q = "'" if r < 60 else '"'
+        return f"[{q}{name}{q}]"
 
     def target(self) -> str:
         return self.pick(TARGETS)
@@ -742,8 +744,9 @@ class C05(Prop):
                  "context objects, filter registry wrapped (Hypothesis)")
     rule = (
         "a case = JSON description of context objects of 5 shapes (plain instance, Mapping drop exposing a strict "
-        "subset of its attributes, Sequence drop, __liquid__/__html__ object, nestings in lists/dicts; every "
-        "Python-only attribute holds/returns SENTINEL_<id>_<name>) + a positive-control unit + 2-6 probe units, "
+        "subset of its attributes, Sequence drop, __liquid__/__html__ object, nestings in lists/dicts; 1-4 drawn "
+        "instance attributes + 13 methods, 5 properties and 3 class attributes per object, each holding/returning "
+        "SENTINEL_<id>_<name>) + a positive-control unit + 2-6 probe units, "
         "each one template for one lookup site (dotted/bracketed/data-keyed/nested/chained path segments, "
         ".first/.last/.size, root names, string and lambda keys of map/where/reject/sort*/sum/uniq/compact/find/"
         "find_index/has, for/tablerow iterables, loop variables and loop drops, include names as data, "
